@@ -157,9 +157,12 @@ DoStop(s, then, ch) ==
                 IN GiveUp(s3, TRUE, ch)
          [] OTHER                          -> now
 
+(* k = failAfterFailures: -1 = None (no limit).  "The number of connection failures after which the Deferred will
+   deliver a Failure": the Failure it delivers is a connection failure, so a limit of 0 is due at the first failure
+   like a limit of 1 (rem = failures still allowed to pass, 0 = no limit). *)
 DoWhen(s, k, then) ==
     LET w  == s.nW + 1
-        s1 == [s EXCEPT !.nW = w, !.wt = [x \in (DOMAIN s.wt) \cup {w} |-> IF x = w THEN [rem |-> k, then |-> then] ELSE s.wt[x]]]
+        s1 == [s EXCEPT !.nW = w, !.wt = [x \in (DOMAIN s.wt) \cup {w} |-> IF x = w THEN [rem |-> IF k < 0 THEN 0 ELSE Max(k, 1), then |-> then] ELSE s.wt[x]]]
     IN CASE s.mode = "run" /\ s.conn # 0 /\ s.prep = "done" -> FireW(s1, {w}, "OK", s.conn)
          [] s.mode = "stopped"                              -> FireW(s1, {w}, "ERR", 0)
          [] OTHER                                           -> s1
@@ -210,7 +213,7 @@ ApplyNested(s, n, ch) ==
     LET s0 == [s EXCEPT !.todo = @ \ {n}]
         s1 == CASE n.call = "start" -> DoStart(s0, ch)
                 [] n.call = "stop"  -> DoStop(s0, "none", ch)
-                [] OTHER            -> DoWhen(s0, 0, "none")
+                [] OTHER            -> DoWhen(s0, 0 - 1, "none")
         nid == CASE n.call = "stop" -> s1.nS [] n.call = "when" -> s1.nW [] OTHER -> 0
     IN [s1 EXCEPT !.nres = Append(@, [by |-> n.by, id |-> n.id, call |-> n.call, res |-> "ok", newid |-> nid])]
 NestedCall(n) ==
@@ -221,7 +224,7 @@ Nested == UNCHANGED cfg /\ \E n \in S.todo : NestedCall(n)
 Thens == {"none", "start", "stop", "when"}
 Next == \/ Start
         \/ \E t \in Thens : Stop(t)
-        \/ \E k \in 0..2, t \in Thens : When(k, t)
+        \/ \E k \in (0 - 1)..2, t \in Thens : When(k, t)
         \/ Succeed
         \/ Fail
         \/ \E c \in S.hooks : PrepOk(c)
